@@ -161,6 +161,10 @@ def _run_part(case):
     tr0, da0 = tr.copy(), da.copy()
     per_run = []
     extra = {}
+    inplace = bool(case.get('inplace')) and len(set(case['splits'])) == 1
+    if inplace:        # ONE pre-allocated traces buffer and ONE data buffer, refilled in place between the update() calls
+        kb = case['splits'][0]
+        tbuf, dbuf = np.empty((kb, tr.shape[1]), dtype=tr.dtype), np.empty((kb, da.shape[1]), dtype=da.dtype)
     for ri, run in enumerate(case['runs']):
         _set_lut(bool(run.get('real_lut')))
         d = cls(partitions=list(case['parts']), precision=case['prec'])
@@ -169,8 +173,17 @@ def _run_part(case):
         o = 0
         with warnings.catch_warnings(), np.errstate(all='ignore'):
             warnings.simplefilter('ignore')
-            for k in case['splits']:
-                d.update(tr[o:o + k], da[o:o + k])
+            for bi, k in enumerate(case['splits']):
+                if inplace:
+                    if bi % 2 == 0:
+                        np.copyto(tbuf, tr[o:o + k])
+                        np.copyto(dbuf, da[o:o + k])
+                    else:
+                        tbuf[:] = tr[o:o + k]
+                        dbuf[:] = da[o:o + k]
+                    d.update(tbuf, dbuf)
+                else:
+                    d.update(tr[o:o + k], da[o:o + k])
                 o += k
             r = d.compute()
         log = [int(v) for v in d.__dict__.get('_verif_kernel_log', [])]
@@ -439,7 +452,9 @@ def _float_traces(rng, n, S, data, tdtype, offset, amp):
 
 
 def part_case(rng, metric, prec, tdtype, P, S, W, n, nb, lists, *, kindv='int', lo=0, hi=40, exp=0, offset=0.0, amp=1.0,
-              threads=(1, 2, 3, 5, 8, 16), real_lut=0, parts=None, heavy=2):
+              threads=(1, 2, 3, 5, 8, 16), real_lut=0, parts=None, heavy=2, inplace=False):
+    if inplace:
+        n = max(1, n // nb) * nb
     parts = list(parts) if parts is not None else list(range(P))
     undeclared = [v for v in range(0, max(parts) + 4) if v not in parts][:3]
     data = _data(rng, n, W, parts, undeclared)
@@ -451,8 +466,8 @@ def part_case(rng, metric, prec, tdtype, P, S, W, n, nb, lists, *, kindv='int', 
     for r in runs[:real_lut]:
         r['real_lut'] = 1
     return {'kind': 'part', 'metric': metric, 'prec': prec, 'tdtype': tdtype, 'ddtype': 'uint8', 'parts': parts, 'exp': e,
-            'traces': traces, 'data': data, 'splits': _splits(rng, n, nb), 'runs': runs, 'sig': f'part/{tdtype}/{prec}',
-            'flavour': kindv if kindv == 'int' else f'float{"+%g" % offset if offset else ""}'}
+            'traces': traces, 'data': data, 'splits': [n // nb] * nb if inplace else _splits(rng, n, nb), 'runs': runs, 'sig': f'part/{tdtype}/{prec}',
+            'inplace': bool(inplace), 'flavour': (kindv if kindv == 'int' else f'float{"+%g" % offset if offset else ""}') + ('/inplace' if inplace else '')}
 
 
 def templ_case(rng, prec, tdtype, P, S, n, bs, lists, *, kindv='int', lo=0, hi=12, exp=0, offset=0.0, amp=1.0,
@@ -611,7 +626,7 @@ class KernelKind(Kind):
             '{1,2,3,8,16}, class-set sizes 2, 8, 9, 10, 12 (the hook log must be empty above 9 classes), undeclared values in the data, '
             'integer traces (int16, int64 incl. multiples of 2^33; exact: ONE bit-identical observation over all runs, equal to the class '
             'sums), float32 / float64 traces with offsets 0, 1000.123, 1e6 and precision float32 / float64 (incl. float32 traces with '
-            'float64 precision), a wide case (48 samples x 64 traces per batch, 8/16 threads) as a race probe; run-length encoded batches with class populations and batch sizes at 255..4097 (powers of two and their neighbours) for both kernel pairs under every choice sequence; the t-test accumulator and the MIA distinguisher under 1,2,3,5,8,16 threads (narrow integer dtypes with extreme values, float32 traces with float64 precision; MIA shapes with 1-4 samples and 5-20 data words, float64 / float32 samples exactly on and one ulp either side of interior bin edges built by linspace / arange(n)/den / arange*0.1, integer samples on integer edges; histograms against Mia.hist_spec), partitioned kernel 1 with 1-3 samples and more words than samples; non-trivial = at least two '
+            'float64 precision), a wide case (48 samples x 64 traces per batch, 8/16 threads) as a race probe; batches delivered through one pre-allocated traces buffer and one data buffer refilled in place (np.copyto / buf[:] = ...) between update() calls, for storage dtypes different from the precision, under every choice sequence; run-length encoded batches with class populations and batch sizes at 255..4097 (powers of two and their neighbours) for both kernel pairs under every choice sequence; the t-test accumulator and the MIA distinguisher under 1,2,3,5,8,16 threads (narrow integer dtypes with extreme values, float32 traces with float64 precision; MIA shapes with 1-4 samples and 5-20 data words, float64 / float32 samples exactly on and one ulp either side of interior bin edges built by linspace / arange(n)/den / arange*0.1, integer samples on integer edges; histograms against Mia.hist_spec), partitioned kernel 1 with 1-3 samples and more words than samples; non-trivial = at least two '
             'distinct choice sequences or thread counts ran and some class holds two traces')
 
     def __init__(self):
@@ -699,6 +714,17 @@ class KernelKind(Kind):
         for i, (td, pr, off, amp) in enumerate(tf):
             yield templ_case(rng, pr, td, (4, 9, 10)[i % 3], 3, 36, 12, _all_lists(3), kindv='float', offset=off, amp=amp)
         yield templ_case(rng, 'float64', 'int16', 8, 12, 128, 32, [[0, 0, 0, 0], [1, 1, 1, 1], [0, 1, 0, 1]] * 2, lo=0, hi=6, threads=(8, 16, 16, 8, 16, 8), heavy=3)
+        # ---- the batches delivered through ONE pre-allocated buffer refilled in place (storage dtype different from the precision)
+        yield part_case(rng, metric(), 'float32', 'int16', 9, 2, 2, 24, 3, _all_lists(3), lo=-20, hi=40, inplace=True, heavy=1)
+        yield part_case(rng, metric(), 'float64', 'float32', 8, 2, 1, 24, 3, _all_lists(3), kindv='float', offset=1000.123, amp=1.0, inplace=True, heavy=1)
+        yield part_case(rng, metric(), 'float64', 'int64', 9, 1, 2, 16, 2, _all_lists(2), lo=-300, hi=300, inplace=True, heavy=1)
+        if not quick:
+            for _ in range(10):
+                td, pr, kv, lo, hi = rng.choice([('int16', 'float32', 'int', -60, 60), ('int16', 'float64', 'int', -3000, 3000), ('float32', 'float64', 'float', 0, 0),
+                                                 ('int64', 'float64', 'int', -300, 300), ('float32', 'float32', 'float', 0, 0)])
+                nb = rng.randint(2, 5)
+                yield part_case(rng, metric(), pr, td, rng.choice([2, 8, 9, 9, 10]), rng.randint(1, 3), rng.randint(1, 2), nb * rng.randint(2, 10), nb,
+                                _all_lists(nb) if nb <= 4 else _some_lists(rng, nb, 6), kindv=kv, lo=lo, hi=hi, offset=rng.choice([0.0, 1000.123]), inplace=True, heavy=1)
         # ---- population / batch-size boundaries inside the kernels (run-length encoded batches, exact integers)
         t3 = _all_lists(3)
         yield rl_case(rng, 'bpart', 'float32', 3, 2, 1, [[1024, 257, 0], [2048, 1023, 1], [512, 4096, 255]], 0, t3)
